@@ -185,7 +185,7 @@ class Ctx:
                 self.samples.append(s)
         self.violations.extend(d["violations"])
         for k, v in d.get("notes", {}).items():
-            if isinstance(v, (int, float)) and isinstance(self.notes.get(k, 0), (int, float)):
+            if isinstance(v, (int, float)) and not isinstance(v, bool) and isinstance(self.notes.get(k, 0), (int, float)):
                 self.notes[k] = self.notes.get(k, 0) + v
             else:
                 self.notes.setdefault(k, v)
